@@ -5,7 +5,8 @@ from .. import cfg, e1, flows, oracles
 from ..report import Result, MachineryError
 
 NEEDS = ("dev",)
-CONTACTS = [["one@example.org"], ["two@example.org", "three@example.org"], []]  # the last edit removes every contact
+# the third edit removes every contact; the fourth list differs from the first in letter case only (still an edit: the CA must be told)
+CONTACTS = [["one@example.org"], ["two@example.org", "three@example.org"], [], ["One@example.org"]]
 KEYTYPES = ["ecdsa-p256", "ecdsa-p384", "ed25519"]
 EAB_KEY = "c2VjcmV0LWtleS1mb3ItZXh0ZXJuYWwtYWNjb3VudC1iaW5kaW5nLTAxMjM0NTY3ODk"
 EVENTS_Q = ["renewA", "renewB", "contacts", "key", "both", "restart", "forgetA", "binding"]
